@@ -79,6 +79,9 @@ def serve(sock_path: str):
             code = 0
             try:
                 srv.close()
+                from .runner import die_with_parent
+
+                die_with_parent()
                 gc.disable()
                 warnings.simplefilter("ignore")
                 signal.signal(signal.SIGCHLD, signal.SIG_DFL)
